@@ -3,14 +3,14 @@ SRC = ['repo:src/String.cpp', 'repo:src/Memory.cpp']
 UNITS = [dict(
     name='xml', harness='harness/c16_xml.cpp', sources=SRC, native_sources=SRC + ['repo:src/Error.cpp', 'repo:src/File.cpp', 'repo:src/Directory.cpp'],
     defines={'quick': {'VF_LEN': 5, 'VF_ELEN': 2}, 'thorough': {'VF_LEN': 7, 'VF_ELEN': 4}},
-    entries=['parse_safety', 'comments', 'escape_roundtrip', 'roundtrip', 'copies'],
+    entries=['parse_safety', 'comments', 'escape_roundtrip', 'unescape_safety', 'roundtrip', 'copies'],
     opts={'all': {'unwind': 64}},
     split={'quick': 12, 'thorough': 16},
     budget={'quick': 280, 'thorough': 2600},
     validate=['parse_safety', 'escape_roundtrip'],
 )]
 BOUNDS = {
-    'quick': 'every NUL-terminated text of <= 5 arbitrary non-NUL bytes in an exactly sized object through Xml::Private::parse; unescape(escape(s)) for every s of <= 2 non-NUL bytes; element trees of <= 3 elements, <= 2 attributes (concrete names), attribute values / non-blank text of <= 2 symbolic bytes, plus one fixed tree with quotes, ampersands, angle brackets and line breaks; six fixed documents with comments and processing instructions; copy independence of Xml::Variant',
+    'quick': 'every NUL-terminated text of <= 5 arbitrary non-NUL bytes in an exactly sized object through Xml::Private::parse; unescape(escape(s)) for every s of <= 2 non-NUL bytes; unescapeString on every text of <= 6 characters over {&,#,;,6,5,l,t,x}; element trees of <= 3 elements, <= 2 attributes (concrete names), attribute values / non-blank text of <= 2 symbolic bytes, plus one fixed tree with quotes, ampersands, angle brackets and line breaks; six fixed documents with comments and processing instructions; copy independence of Xml::Variant',
     'thorough': 'texts <= 7 bytes, escape round trip <= 4 bytes',
 }
 OUTSIDE = 'longer texts / deeper trees (nesting depth 1000 not reached), File-based load/save, symbolic element or attribute names'
